@@ -83,3 +83,14 @@ claim("C06",
       "Role classification relies on the sentinel conventions of the generators; twip rounding is exact-rational (ties flagged).",
       "Rocq proof (structure of render_page, placement predicate) + role-level differential check + exhaustive placement product",
       "DESIGN.md section 6 C06")
+claim("C08",
+      "Theorems (Coq, unbounded, exact rationals): the last cumulative boundary equals the table width so every row "
+      "ends at twip(col_width); each boundary is the rounding of its exact proportional position and rounding is within "
+      "half a twip (widths proportional to within one twip); twip depends only on the value of the rational. Against the "
+      "implementation: \\cellx of every parsed row (headers, spanning rows, data, footnote/source tables, multi-section) vs "
+      "twip(col_width), data boundaries vs exact proportional positions, inherited headers cell-by-cell vs data rows, "
+      "including documents whose component objects were first used by an earlier document with another column count.",
+      "Header width inheritance is constructor logic observed through the dumped state and checked on the output (clause 3), "
+      "not proved; binary64 noise at exact half-twip ties is excluded (flagged).",
+      "Rocq proof (Q arithmetic: field / lia / nia) + differential check on \\cellx values",
+      "DESIGN.md section 6 C08, section 5 K4")
